@@ -104,7 +104,9 @@ def gen_twin(rng, b):
     return {"data": [[rng.randint(-3, 6) for _ in range(W)] for _ in range(H)],
             "noise": [[rng.choice(["1/2", "1", "2", "4"]) for _ in range(W)] for _ in range(H)],
             "psf": rng.choice([q for q in PSFS if q != b["psf"]]),
-            "slots": [s for s in SLOTS if rng.random() < 0.5]}
+            "slots": [s for s in SLOTS if rng.random() < 0.5],
+            # ONE Preloads object for both datasets, re-populated (as Preloads.set_* does) before every inversion
+            "same_pre": rng.random() < 0.5}
 
 def gen_edits(rng, hist):
     """the user re-populates the shared Preloads object between two inversions (as a later Preloads.set_* call does)"""
@@ -114,6 +116,32 @@ def gen_edits(rng, hist):
                   if rng.random() < 0.7 else None)
     return ed
 
+SETTERS = ["set_w_tilde_imaging", "set_operated_mapping_matrix_with_preloads", "set_linear_func_inversion_dicts",
+           "set_curvature_matrix", "set_regularization_matrix_and_term"]
+def gen_sets(rng, n):
+    for i in range(n):
+        b = gen_base(rng, ["m", "mf", "m", "mfm", "fm", "mm", "mff", "f"][i % 8])
+        if i % 8 in (0, 2): b["objs"][0]["coef"] = rng.choice(["1", "2", "1/2"])      # exactly one regularization
+        b["op"] = "sets"
+        b["use_w_tilde"] = bool(i % 2) if i < 8 else b["use_w_tilde"]
+        b["pre_use_wt"] = rng.choice([None, None, None, False])          # Preloads(use_w_tilde=...) of fit_0 / fit_1 themselves
+        b["fit1"] = rng.choice(["same", "same", "same", "data", "noise", "func"])
+        b["fit1_seed"] = rng.randrange(10 ** 6)
+        b["chain"] = [s for s in SLOTS if rng.random() < 0.4] if rng.random() < 0.25 else []
+        b["reads0"] = rng.choice([[], [], ["QCurv"], ["QCrm"], list(STD), ["QDv", "QCurv"]])
+        b["reads0_after"] = rng.choice([["QCrm", "QCurv", "QRec"], list(STD), ["QCrm"], ["QRec", "QLdc", "QCurv"], []])
+        r = rng.random()
+        b["setters"] = (list(SETTERS) if r < 0.5 else rng.sample(SETTERS, rng.randint(1, 5)))
+        if r > 0.8: b["setters"] = b["setters"] + [rng.choice(SETTERS)]                # a setter called twice
+        b["hist"] = gen_hist(rng)
+        if i in (0, 2) or (i % 8 in (0, 2) and rng.random() < 0.5):
+            # directed (defect 1fc8a9b): one regularization, the curvature matrix preloaded by set_curvature_matrix while it is
+            # still in fit_0.inversion's cache, then fit_0.inversion.curvature_reg_matrix evaluated for the first time
+            b["fit1"] = rng.choice(["same", "data"]); b["setters"] = list(SETTERS); b["chain"] = []
+            b["reads0"] = rng.choice([[], ["QCurv"], ["QDv", "QCurv"]]); b["reads0_after"] = rng.choice([["QCrm", "QCurv", "QRec"], list(STD)])
+        gen_env(rng, b, plain=0.6); b.pop("alias", None)
+        yield b
+
 def gen_inputs(tier, rng):
     big = tier == "thorough"
     # the defect witness of fixes/C15_mapping_data_vector_mapper.md stays in the stream
@@ -122,7 +150,7 @@ def gen_inputs(tier, rng):
            "objs": [{"k": "m", "shape": [2, 2], "sub": 1, "coef": "1"}, {"k": "f", "p": 1, "seed": 1, "ovr": False, "coef": None}],
            "use_w_tilde": False, "pos": False, "eps": None, "slots": ["data_vector_mapper"], "pre_use_wt": None,
            "hist": [["QDv", "QRec"], ["QDv", "QRec"]]}
-    for i in range(420 if big else 56):
+    for i in range(420 if big else 40):
         b = gen_base(rng, MIXES[i % len(MIXES)] if i < 2 * len(MIXES) else None)
         b["op"] = "hist"
         r = rng.random()
@@ -134,7 +162,7 @@ def gen_inputs(tier, rng):
         yield b
     # directed: ONE regularized linear object (the only configuration in which curvature_reg_matrix adds the
     # regularization matrix IN PLACE into the array curvature_matrix returned) with the curvature matrix preloaded
-    for i in range(40 if big else 8):
+    for i in range(40 if big else 6):
         b = gen_base(rng, "m")
         b["objs"][0]["coef"] = rng.choice(["1", "2", "1/2"])
         b["op"] = "hist"; b["use_w_tilde"] = bool(i % 2); b["pre_use_wt"] = None
@@ -143,7 +171,7 @@ def gen_inputs(tier, rng):
         gen_env(rng, b, plain=0.3)
         yield b
     # twins: two datasets sharing the mask, the linear OBJECTS (and possibly the settings object), inversions interleaved
-    for i in range(40 if big else 6):
+    for i in range(40 if big else 4):
         b = gen_base(rng, ["mf", "m", "mm", "fm", "mfm", "mff"][i % 6])
         b["op"] = "hist"; b["pre_use_wt"] = rng.choice([None, None, True, False])
         b["slots"] = [s for s in SLOTS if rng.random() < 0.6]
@@ -153,7 +181,7 @@ def gen_inputs(tier, rng):
         gen_env(rng, b, plain=0.6)
         yield b
     # edits: slots of the shared Preloads object are cleared / (re)filled between the inversions of the history
-    for i in range(40 if big else 6):
+    for i in range(40 if big else 4):
         b = gen_base(rng, ["mf", "m", "mfm", "fm", "mm", "fmf"][i % 6])
         b["op"] = "hist"; b["pre_use_wt"] = rng.choice([None, None, True, False])
         b["slots"] = [s for s in SLOTS if rng.random() < 0.5]
@@ -162,6 +190,8 @@ def gen_inputs(tier, rng):
         b["edits"] = gen_edits(rng, b["hist"])
         gen_env(rng, b, plain=0.6)
         yield b
+    # Preloads.set_*(fit_0, fit_1): the production path that fills the slots (with the producing inversion's own arrays)
+    yield from gen_sets(rng, 60 if big else 10)
     for i in range(28 if big else 5):
         b = gen_base(rng, ["mfmf", "mf", "mm", "fm", "m", "mff", "fmf"][i % 7])
         b["op"] = "subsets"; b["k"] = 3 if big else 2
@@ -441,6 +471,7 @@ class Track:
         self.segs = []; self.open_segment()
         self.why = ""
     def open_segment(self):
+        self.segs_open = True
         self.seg = {"pre": cstore(self.pre, self.npix), "h": [], "outs": [],
                     "before": {s: (v, fingerprint(v)) for s, v in vars(self.pre).items() if s in SLOTS and v is not None}}
     def fresh_of(self, qs):
@@ -456,6 +487,8 @@ class Track:
         bad = [q for q, a, b in zip(qs, o, self.fresh_of(qs)) if not same(a, b)]
         if bad and not self.why: self.why = f"outputs differ from the inversion without preloads: {bad}"
     def close_segment(self):
+        if not self.segs_open: return
+        self.segs_open = False
         # the only array an inversion may write in place: data_vector_mapper, by the w-tilde class with a function object
         allowed = {"data_vector_mapper"} if (self.wt and self.has_f) else set()
         for s, (v, fp) in self.seg["before"].items():
@@ -484,8 +517,16 @@ def run_hist(inp):
         tracks.append(Track(aa, dsB, objs, settings, inp, tw["slots"], inp.get("pre_use_wt"), alias))
     hist, edits = inp["hist"], inp.get("edits") or []
     pristine = None
+    same_pre = bool(tw and tw.get("same_pre"))
+    if same_pre:
+        for t in tracks: t.cur = {s: getattr(t.pre, s) for s in SLOTS}
+        tracks[1].pre = tracks[0].pre
     for i, qs in enumerate(hist):
         for t in tracks:
+            if same_pre:
+                t.close_segment()
+                for s in SLOTS: setattr(t.pre, s, t.cur[s])
+                t.open_segment()
             ed = edits[i] if (t is tracks[0] and i < len(edits)) else None
             if ed:
                 t.close_segment()
@@ -495,17 +536,93 @@ def run_hist(inp):
                     if s in pristine: setattr(t.pre, s, private(aa, ds, s, pristine[s]))
                 t.open_segment()
             t.step(qs)
+            if same_pre: t.close_segment()
     for t in tracks: t.finish()
     why = next((t.why for t in tracks if t.why), "") or defaults_pristine(aa)
     terms = [c for t in tracks for c in t.segs]
     t0 = tracks[0]
     nm = sum(1 for o in inp["objs"] if o["k"] == "m")
     kind = (("wtilde" if t0.wt else "mapping") + ":" + "".join(o["k"] for o in inp["objs"]) + f":{len(t0.vals)}slots:{len(hist)}inv"
-            + (":twin" if tw else "") + (":edits" if any(edits) else "") + (":alias" if alias else "")
+            + (":twin" if tw else "") + ("-samepre" if same_pre else "") + (":edits" if any(edits) else "") + (":alias" if alias else "")
             + (":scaled" if inp.get("sc") else "") + (":shared" if inp.get("share") else ""))
     fr = t0.fresh_of(hist[0])
     return {"coq": terms[0], "extra_coq": terms[1:], "out": {"fresh": [jval(x) for x in fr][:4], "why": why},
             "py_ok": not why, "kind": kind, "nontrivial": bool(t0.vals) and nm > 0}
+
+def run_sets(inp):
+    aa, ds, objs, settings = build(inp)
+    pre_use_wt = inp.get("pre_use_wt")
+    has_f = any(o["k"] == "f" for o in inp["objs"]); nm = sum(1 for o in inp["objs"] if o["k"] == "m")
+    wt0 = wt_chosen(inp, pre_use_wt)
+    # fit_1: the same model instance, or one that differs in the data, in the noise map, or in the function objects
+    kind1 = inp["fit1"]; rs = np.random.RandomState(inp["fit1_seed"]); ds1, objs1 = ds, objs
+    if kind1 in ("data", "noise"):
+        H, W = len(inp["mask"]), len(inp["mask"][0])
+        data1 = [[int(v) for v in r] for r in rs.randint(-3, 7, size=(H, W))] if kind1 == "data" else inp["data"]
+        noise1 = [[["1/2", "1", "2", "4"][int(v)] for v in r] for r in rs.randint(0, 4, size=(H, W))] if kind1 == "noise" else inp["noise"]
+        ds1 = build_ds(aa, inp, settings.mask, data1, noise1, inp["psf"])
+    elif kind1 == "func" and has_f:
+        inp1 = dict(inp); inp1["objs"] = [dict(o, seed=o["seed"] + 1 + int(rs.randint(1000))) if o["k"] == "f" else o for o in inp["objs"]]
+        objs1 = [a if o["k"] == "m" else b for o, a, b in zip(inp["objs"], objs, build(inp1)[2])]
+    own0 = slot_values(aa, ds, objs, settings, inp, pre_use_wt, inp["chain"]) if inp["chain"] else {}
+    inv0 = aa.Inversion(dataset=ds, linear_obj_list=objs, settings=settings(), preloads=aa.Preloads(use_w_tilde=pre_use_wt, **own0))
+    inv1 = aa.Inversion(dataset=ds1, linear_obj_list=objs1, settings=settings(), preloads=aa.Preloads(use_w_tilde=pre_use_wt))
+    fit0 = aa.m.MockFitImaging(dataset=ds, inversion=inv0, noise_map=ds.noise_map)
+    fit1 = aa.m.MockFitImaging(dataset=ds1, inversion=inv1, noise_map=ds1.noise_map)
+    fp_in = input_fingerprints(ds, objs, settings())
+    why = ""
+    before0 = [observe(inv0, q) for q in inp["reads0"]]
+    pre = aa.Preloads()
+    raised = []
+    for name in inp["setters"]:
+        r = call_res(lambda: getattr(pre, name)(fit0, fit1))
+        if r[0] != "ok":
+            raised.append((name, r[1]))
+            # known, outside C15 (fixes/C15_set_curvature_matrix_alias.md): the MAPPING class's _curvature_matrix_mapper_diag indexes
+            # one mapper's matrix with the global no-regularization index list
+            if not (name == "set_curvature_matrix" and r[1] == "IndexError" and not wt0) and not why:
+                why = f"{name} raised {r[1]}"
+    filled = {s: getattr(pre, s) for s in SLOTS if getattr(pre, s) is not None}
+    # the fresh-value premise: every filled slot holds what a fresh inversion of fit_0's class computes
+    ref = aa.Inversion(dataset=ds, linear_obj_list=objs, settings=settings(), preloads=aa.Preloads(use_w_tilde=pre_use_wt))
+    def val_of(s):
+        if s == "data_vector_mapper": return ("V", np.array(ref._data_vector_mapper, dtype=float))
+        if s == "curvature_matrix_mapper_diag": return ("M", np.array(ref._curvature_matrix_mapper_diag, dtype=float))
+        if s == "log_det_regularization_matrix_term": return ("RT", ("ok", np.array(ref.log_det_regularization_matrix_term, dtype=float)))
+        v = getattr(ref, s)
+        return ("L", [np.array(x, dtype=float) for x in v.values()]) if isinstance(v, dict) else ("M", np.array(v, dtype=float))
+    def as_val(s, v):
+        if s == "data_vector_mapper": return ("V", np.array(v, dtype=float))
+        if s == "log_det_regularization_matrix_term": return ("RT", ("ok", np.array(v, dtype=float)))
+        return ("L", [np.array(x, dtype=float) for x in v.values()]) if isinstance(v, dict) else ("M", np.array(v, dtype=float))
+    for s, v in filled.items():
+        if s == "w_tilde": continue
+        if s == "data_vector_mapper" and wt0 and has_f and inp["chain"]: continue      # may legitimately be the completed vector
+        if not same(as_val(s, v), val_of(s)) and not why: why = f"{s} stored by the set_* methods is not the fresh value"
+    fps = {s: fingerprint(v) for s, v in filled.items()}
+    # fit_0's inversion goes on being used AFTER the preloads were set
+    after0 = [observe(inv0, q) for q in inp["reads0_after"]]
+    fresh0 = aa.Inversion(dataset=ds, linear_obj_list=objs, settings=settings(), preloads=aa.Preloads(use_w_tilde=pre_use_wt))
+    bad = [q for q, a, b in zip(inp["reads0_after"], after0, [observe(fresh0, q) for q in inp["reads0_after"]]) if not same(a, b)]
+    if bad and not why: why = f"fit_0.inversion attributes read after set_*: {bad} differ from a fresh inversion"
+    for s, v in filled.items():
+        if fingerprint(v) != fps[s] and not why: why = f"preloaded {s} changed when fit_0.inversion was read after set_*"
+    wt_later = wt_chosen(inp, pre.use_w_tilde)
+    allowed = {"data_vector_mapper"} if (wt_later and has_f) else set()
+    n = 0
+    for qs in inp["hist"]:
+        inv = aa.Inversion(dataset=ds, linear_obj_list=objs, settings=settings(), preloads=pre)
+        frs = aa.Inversion(dataset=ds, linear_obj_list=objs, settings=settings())
+        bad = [q for q in qs if not same(observe(inv, q), observe(frs, q))]; n += 1
+        if bad and not why: why = f"inversion {n} with the preloads set by set_*: {bad} differ from the inversion without preloads"
+    for s, v in filled.items():
+        if fingerprint(v) != fps[s] and s not in allowed and not why: why = f"preloaded {s} was modified in place"
+    if fp_in != input_fingerprints(ds, objs, settings()) and not why: why = "the caller's inputs were modified"
+    why = why or defaults_pristine(aa)
+    kind = ("sets:" + ("wtilde" if wt0 else "mapping") + ":" + "".join(o["k"] for o in inp["objs"]) + ":fit1=" + kind1
+            + (":chain" if inp["chain"] else "") + f":{len(filled)}filled")
+    return {"coq": None, "py_ok": not why, "kind": kind, "nontrivial": nm > 0 and len(filled) > 1,
+            "out": {"filled": sorted(filled), "use_w_tilde": pre.use_w_tilde, "raised": raised, "why": why}}
 
 def run_subsets(inp):
     import copy
@@ -554,4 +671,5 @@ def run_noise(inp):
 def run_case(inp):
     if inp["op"] == "hist": return run_hist(inp)
     if inp["op"] == "subsets": return run_subsets(inp)
+    if inp["op"] == "sets": return run_sets(inp)
     return run_noise(inp)
